@@ -37,5 +37,7 @@ LinesNested == done => \A d, e \in Divs : (e % d = 0) => LineTimes(notes, BL, d)
 HitsRestOnLines == done => \A i \in DOMAIN notes : \A d \in Divs :
     (notes[i].n = 0 /\ notes[i].t \in LineTimes(notes, BL, d)) =>
         LET b == HitBox(notes, cfg, notes[i]) IN LineRow(notes, cfg, notes[i].t) = b.y0 + b.h
+\* the gaps the separators are entitled to never hold a pixel of a note
+GapsAvoidNotes == done => \A i \in DOMAIN notes : \A b \in Boxes(notes, cfg, notes[i]) : \A x \in GapXs(notes, cfg) : ~(x >= b.x0 /\ x < b.x0 + b.w)
 EmitScn == (Emit /\ done) => PrintT(ToJson([kind |-> "field", notes |-> notes, cfg |-> cfg]))
 =============================================================================
